@@ -85,7 +85,7 @@ static bool audit_phase(CheckState& st) {
         for (auto& l : lines(sh("nm " + d + "/pairing.a 2>/dev/null"))) {
             if (l.size() < 3 || l.back() == ':') continue; size_t p = l.rfind(' '); if (p == std::string::npos || p < 1) continue;
             char t = l[p - 1]; std::string sym = l.substr(p + 1);
-            if (t == 'U') undef.insert(sym); else if (t != 'w' && t != 'v') defined.insert(sym); else if (l[0] != ' ') defined.insert(sym);
+            if (t == 'U') undef.insert(sym); else if (t != 'w' && t != 'v') defined.insert(sym); else if (l[0] != ' ') defined.insert(sym); else undef.insert(sym);   // weak undefined reference: legal to leave unresolved, still an import (and a call when it resolves)
         }
         auto cj = Json::obj(); cj->set("configuration", c.name); auto ua = Json::arr();
         for (auto& u : undef) if (!defined.count(u)) { ua->push(Json::str(u)); st.evaluations++; st.cases_all.insert(hash64(std::string(c.name) + u)); st.cases_nontrivial.insert(hash64(std::string(c.name) + u));
